@@ -957,6 +957,246 @@ def parser_stream_histories(chk, rnd, count):
                 break
 
 
+# ---------------------------------------------------------------------------------------------
+# FEEDBACK: the RESULT object of an earlier call used as (part of) the input of a later call on
+# the same environment (C14-G class).  Each answer is compared with the same call on the same
+# abstract input rebuilt node by node in another environment with brand-new walkers.
+# (Idempotence of the simplifier is NOT an oracle: it does not hold on the unchanged tree.)
+# ---------------------------------------------------------------------------------------------
+
+def _conv_type(t, tm):
+    from pysmt.typing import BOOL, INT, REAL, STRING
+    if t.is_bool_type():
+        return BOOL
+    if t.is_int_type():
+        return INT
+    if t.is_real_type():
+        return REAL
+    if t.is_string_type():
+        return STRING
+    if t.is_bv_type():
+        return tm.BVType(t.width)
+    if t.is_array_type():
+        return tm.ArrayType(_conv_type(t.index_type, tm), _conv_type(t.elem_type, tm))
+    if t.is_function_type():
+        return tm.FunctionType(_conv_type(t.return_type, tm), [_conv_type(x, tm) for x in t.param_types])
+    return tm.Type(str(t))
+
+
+def rebuild(f, ref, cache):
+    """The same abstract formula in environment `ref` (own iterative structural copy)."""
+    rm, tm = ref.formula_manager, ref.type_manager
+    stack = [(f, False)]
+    while stack:
+        x, done = stack.pop()
+        if x in cache:
+            continue
+        if not done:
+            stack.append((x, True))
+            todo = list(x.args())
+            if x.is_quantifier():
+                todo += list(x.quantifier_vars())
+            if x.is_function_application():
+                todo.append(x.function_name())
+            stack.extend((a, False) for a in todo if a not in cache)
+            continue
+        if x.is_symbol():
+            cache[x] = rm.Symbol(x.symbol_name(), _conv_type(x.symbol_type(), tm))
+        elif x.is_quantifier():
+            q = rm.ForAll if x.is_forall() else rm.Exists
+            cache[x] = q([cache[v] for v in x.quantifier_vars()], cache[x.arg(0)])
+        elif x.is_function_application():
+            cache[x] = rm.Function(cache[x.function_name()], [cache[a] for a in x.args()])
+        elif x.is_array_value():
+            cache[x] = rm.create_node(x.node_type(), tuple(cache[a] for a in x.args()), _conv_type(x._content.payload, tm))
+        else:
+            cache[x] = rm.create_node(x.node_type(), tuple(cache[a] for a in x.args()), x._content.payload)
+    return cache[f]
+
+
+def _feedback_ops():
+    """name -> (needs Bool, fn(env, f, fresh)): with fresh=True every walker is a brand-new instance."""
+    import pysmt.rewritings as rw
+    import pysmt.simplifier
+    import pysmt.substituter as sb
+
+    def subst(env, f, fresh):
+        fv = sorted((x for x in env.fvo.get_free_variables(f) if not x.symbol_type().is_function_type()), key=lambda x: x.symbol_name())
+        subs = {}
+        for a in fv[:2]:
+            same = [x for x in fv if x.symbol_type() == a.symbol_type() and x is not a]
+            if same:
+                subs[a] = same[-1]
+        return (sb.MGSubstituter(env) if fresh else env.substituter).substitute(f, subs)
+
+    def fv_formula(env, f, fresh):
+        m = env.formula_manager
+        vs = sorted(env.fvo.get_free_variables(f), key=lambda x: x.symbol_name())
+        bs = [v for v in vs if v.symbol_type().is_bool_type()]
+        ints = [v for v in vs if v.symbol_type().is_int_type()]
+        return m.And(bs + ([m.LT(m.Plus(ints), m.Int(0))] if len(ints) > 1 else []))
+    return {
+        "simplify": (False, lambda env, f, fresh: (pysmt.simplifier.Simplifier(env) if fresh else env.simplifier).simplify(f)),
+        "substitute": (False, subst),
+        "nnf": (True, lambda env, f, fresh: rw.nnf(f, env)), "prenex": (True, lambda env, f, fresh: rw.prenex_normal_form(f, env)),
+        "aig": (True, lambda env, f, fresh: rw.aig(f, env)), "cnf": (True, lambda env, f, fresh: rw.cnf(f, env)),
+        "propagate_toplevel": (True, lambda env, f, fresh: rw.propagate_toplevel(f, env)),
+        "free_vars_as_formula": (False, fv_formula),
+    }
+
+
+def _embed(env, r, rnd):
+    """A new formula that contains r as a sub-term."""
+    m = env.formula_manager
+    t = env.stc.get_type(r)
+    from pysmt.typing import BOOL, INT, REAL
+    if t.is_bool_type():
+        p = m.Symbol("fb_p", BOOL)
+        return rnd.choice([lambda: m.And(r, p), lambda: m.Not(r), lambda: m.Ite(p, r, m.Not(r)), lambda: m.Or(m.Not(r), m.And(p, r))])()
+    if t.is_int_type():
+        i = m.Symbol("fb_i", INT)
+        return rnd.choice([lambda: m.Plus(r, i), lambda: m.Minus(i, r), lambda: m.Times(r, m.Int(2)), lambda: m.Plus(m.Plus(r, i), r), lambda: m.LT(m.Plus(r, i), i)])()
+    if t.is_real_type():
+        x = m.Symbol("fb_r", REAL)
+        return rnd.choice([lambda: m.Plus(r, x), lambda: m.Minus(x, r), lambda: m.Div(r, m.Real(2)), lambda: m.LE(m.Plus(r, x), x)])()
+    if t.is_bv_type():
+        v = m.Symbol("fb_v", env.type_manager.BVType(t.width))
+        return rnd.choice([lambda: m.BVAdd(r, v), lambda: m.BVNot(r), lambda: m.BVULT(m.BVXor(r, v), v)])()
+    return m.Equals(r, r)
+
+
+def _boolify(env, f):
+    m = env.formula_manager
+    t = env.stc.get_type(f)
+    if t.is_bool_type():
+        return f
+    return m.Equals(f, f) if not (t.is_int_type() or t.is_real_type()) else m.LE(f, m.Plus(f, f))
+
+
+_FRESH_RE = None
+
+
+def _fresh_token(name):
+    global _FRESH_RE
+    if _FRESH_RE is None:
+        import re
+        _FRESH_RE = re.compile(r"^(?:__x|FV|\.def_|ack)\d+$")
+    return "<fresh>" if _FRESH_RE.match(name) else name
+
+
+def feedback_steps(chk, rnd, env, f0, label, stats, steps=3, first_op=None):
+    """op0(f0) = r0; then 1..steps calls whose input is (built from) the previous RESULT object."""
+    from pysmt.environment import Environment
+    OPS = _feedback_ops()
+    names = sorted(OPS)
+    import pysmt.environment as pe
+    hist = []
+    cur = f0
+    for k in range(steps + 1):
+        if k == 0:
+            nm = first_op or rnd.choice(names)
+            inp = cur
+            mode = "input"
+        else:
+            mode = rnd.choice(["same operation on the result", "another operation on the result", "operation on a new formula containing the result"])
+            nm = hist[-1][0] if mode.startswith("same") else rnd.choice(names)
+            inp = _embed(env, cur, rnd) if mode.startswith("operation on a new") else cur
+        if OPS[nm][0]:
+            inp = _boolify(env, inp)
+        pe.push_env(env)
+        try:
+            got = ("ok", OPS[nm][1](env, inp, False))
+        except Exception as ex:        # noqa
+            got = ("raise", type(ex).__name__)
+        finally:
+            pe.pop_env()
+        ref = Environment()
+        rinp = rebuild(inp, ref, {})
+        pe.push_env(ref)
+        try:
+            exp = ("ok", OPS[nm][1](ref, rinp, True))
+        except Exception as ex:        # noqa
+            exp = ("raise", type(ex).__name__)
+        finally:
+            pe.pop_env()
+        # fresh symbols (of this call or of an earlier cnf whose result is the input) all map to one token
+        # BEFORE commutative arguments are sorted: a comparison up to fresh names that does not depend on them
+        kg = (got[0], walkgen.canon(got[1], _fresh_token) if got[0] == "ok" else got[1])
+        ke = (exp[0], walkgen.canon(exp[1], _fresh_token) if exp[0] == "ok" else exp[1])
+        hist.append((nm, "%s(%s)  [%s]" % (nm, walkgen.canon(inp)[:300], mode), kg))
+        stats["calls"] += 1
+        if kg != ke:
+            chk.violation({"kind": "history", "what": "%s on an input built from the RESULT of an earlier call (%s) differs from the same call on the same formula in a fresh environment"
+                           % (nm, mode), "history": ["%s -> %s" % (h[1], str(h[2][1])[:300]) for h in hist], "after_history": list(kg), "fresh": list(ke), "origin": label},
+                          key="feedback:%s:%s" % (hist[0][0] if len(hist) > 1 else nm, nm))
+            return False
+        if got[0] != "ok":
+            return True
+        cur = got[1]
+    return True
+
+
+def _arith_term(rnd, m, xs, depth, real=False):
+    """Arithmetic shapes that tend not to be fixed points of the simplifier: Minus under Plus,
+    Times/Div by constants, constants that are not merged."""
+    if depth == 0 or rnd.random() < 0.15:
+        return rnd.choice(xs + [m.Real(rnd.randrange(1, 4)) if real else m.Int(rnd.randrange(1, 4))])
+    k = rnd.random()
+    a, b = _arith_term(rnd, m, xs, depth - 1, real), _arith_term(rnd, m, xs, depth - 1, real)
+    if k < 0.4:
+        return m.Plus(a, b) if rnd.random() < 0.7 else m.Plus(a, b, _arith_term(rnd, m, xs, depth - 1, real))
+    if k < 0.7:
+        return m.Minus(a, b)
+    if k < 0.85:
+        return m.Times(a, m.Real(2) if real else m.Int(rnd.randrange(2, 4)))
+    return m.Div(a, m.Real(rnd.randrange(2, 4))) if real else m.Minus(m.Times(a, m.Int(2)), b)
+
+
+def feedback_family(chk, rnd, tier):
+    from pysmt.environment import Environment
+    import pysmt.simplifier
+    from pysmt.typing import INT, REAL
+    stats = {"calls": 0, "histories": 0, "non_fixed_points": 0, "arith_samples": 0}
+    # (1) random recipes, any operation first, three feedback steps
+    for h in range(150 if tier == "quick" else 1500):
+        rows = walkgen.gen_recipe(rnd, rnd.choice([8, 12, 16]), sorts=("bool", "int", "real", "bv"), quant=rnd.random() < 0.25)
+        env = Environment()
+        nodes = walkgen.build(env, rows)
+        f0 = nodes[rnd.randrange(len(nodes) - 4, len(nodes))]
+        stats["histories"] += 1
+        chk.count(("feedback", h))
+        feedback_steps(chk, rnd, env, f0, "recipe %r" % (rows[-3:],), stats)
+    # (2) arithmetic terms whose simplified form is NOT a fixed point of the simplifier (decided in a
+    #     fresh environment), then simplify / other operations on the result and on terms containing it
+    want = 100 if tier == "quick" else 1000
+    env = None
+    while stats["non_fixed_points"] < want and stats["arith_samples"] < 60 * want:
+        if env is None or stats["arith_samples"] % 200 == 0:
+            env = Environment()
+            m = env.formula_manager
+            xi = [m.Symbol("x%d" % k, INT) for k in range(4)]
+            xr = [m.Symbol("y%d" % k, REAL) for k in range(3)]
+        real = rnd.random() < 0.3
+        t = _arith_term(rnd, m, xr if real else xi, rnd.choice([2, 3, 4]), real)
+        stats["arith_samples"] += 1
+        r = env.simplifier.simplify(t)
+        ref = Environment()
+        rr = rebuild(r, ref, {})
+        if walkgen.canon(pysmt.simplifier.Simplifier(ref).simplify(rr)) == walkgen.canon(rr):
+            continue
+        stats["non_fixed_points"] += 1
+        chk.count(("feedback-arith", stats["non_fixed_points"]))
+        # the result object r was produced by THIS environment's simplifier: feed it back
+        if not feedback_steps(chk, rnd, env, r, "simplify(%s) = %s (not a fixed point of the simplifier)" % (walkgen.canon(t)[:200], walkgen.canon(r)[:200]), stats,
+                              steps=2, first_op="simplify"):
+            env = None
+            continue
+        g = _embed(env, r, rnd)
+        feedback_steps(chk, rnd, env, g, "a term containing simplify(%s)" % walkgen.canon(t)[:200], stats, steps=1, first_op="simplify")
+    chk.cov["feedback"] = stats
+    return stats
+
+
 def run(tier):
     chk = lib.Check("C14", tier)
     rnd = random.Random(chk.seed)
@@ -993,6 +1233,7 @@ def run(tier):
     vol = [volume_history(chk, rnd) for _ in range(1 if tier == "quick" else 3)]
     chk.cov["volume_histories"] = {"count": len(vol), "distinct_nodes_through_each_walker": vol, "stages": "after > 2^16 and after > 2^17 distinct nodes",
                                    "seconds": round(time.time() - tv, 1)}
+    feedback_family(chk, rnd, tier)
     nc = 400 if tier == "quick" else 4000
     hits = {}
     for h in range(nc):
